@@ -509,6 +509,33 @@ def check(ctx):
             r1b.ok("GenerationCache.combined_hash is computed from every input of %s (%s)" % (short_path(g_.id), ", ".join(n for n in need if "GenerationCache::" + n in got)))
         else:
             r1b.bad(V(r1b.id, CACHE_NEW, "combine-args:%s" % "|".join(lost + miss), "the stored combined digest is not computed from %s (it is fed by %s)" % (lost + miss, sorted(got))))
+    # ... each digest function is handed the constructor's own input (not a subset computed from it), and puts every element of it into the
+    # serialised view: nothing in a digest function drops, de-duplicates or overwrites elements (the generators look at all of them — e.g. at the
+    # *first* emit of an event name)
+    DROPPERS = {"insert", "entry", "dedup", "dedup_by", "dedup_by_key", "retain", "filter", "filter_map", "take", "skip", "take_while", "skip_while", "step_by", "truncate",
+                "pop", "remove", "swap_remove", "find", "first", "last", "nth", "unique"}
+    for (g_, rv) in aggs[:1]:
+        for c in g_.calls:
+            sp_ = short_path(c.best)
+            if c.bb in g_.reach_blocks and re.fullmatch(r"GenerationCache::hash_\w+", sp_) and sp_.split("::")[-1] in need and c.args:
+                o_ = g_.origin(c.args[0])
+                while o_[0] == "proj" or (o_[0] == "call" and o_[1].args and o_[1].name in ("deref", "as_ref", "as_slice", "borrow", "as_deref")):
+                    o_ = o_[1] if o_[0] == "proj" else g_.origin(o_[1].args[0])
+                if o_[0] == "arg":
+                    r1b.ok("%s receives the constructor's parameter %s" % (sp_, o_[2]))
+                else:
+                    r1b.bad(V(r1b.id, CACHE_NEW, "digest-input-derived:%s" % sp_.split("::")[-1],
+                              "%s is not handed the constructor's own input but %s: whatever that computation leaves out can change without changing the digest"
+                              % (sp_, g_.describe_origin(o_, deep=2)[:100]), c.file, c.line))
+    for n_ in need:
+        for hf_ in [k for k in P.fns if k.endswith("GenerationCache::" + n_)]:
+            drops = sorted({c.name for k2 in P.family(hf_) if "{promoted" not in k2 for c in P.fns[k2].calls if c.bb in P.fns[k2].reach_blocks and c.name in DROPPERS
+                            and not c.path.startswith("serde")})
+            if drops:
+                r1b.bad(V(r1b.id, hf_, "digest-drops-elements:%s" % ",".join(drops),
+                          "%s passes its input through %s: elements that are dropped, merged or overwritten there do not reach the digest although generation reads them" % (n_, ", ".join(drops))))
+            else:
+                r1b.ok("%s serialises every element of its input" % n_)
     nrf = None
     for k in sorted(P.reachable([NR])):
         g = P.fns[k]
